@@ -24,3 +24,31 @@ Definition run_validate (rts : list ruleterm) (doc : pyval) : res pyval :=
   let* v := validate T rs doc in
   Ok (VTuple [VBool (v_valid v); VInt (Z.of_nat (v_num_failures v)); VInt (Z.of_nat (v_num_tested v));
               VList (map obs_rtest (v_tests v)); v_cast_data v]).
+
+(* Schema.add_schema(T, root): re-rooted copies of T's rules are added, then re-sorted *)
+Definition reroot (R : dpath pyval) (r : rule) : rule :=
+  let parts := p_parts R ++ p_parts (r_path r) in
+  {| r_path := {| p_parts := parts; p_concrete := match parts with [] => true | _ => false end;
+                  p_dt := DtNone; p_mt := MtNone; p_src := None |};
+     r_cond := r_cond r; r_cast := r_cast r |}.
+
+Definition add_schema (S Tr : list rule) (R : dpath pyval) : list rule :=
+  sort_rules (sort_rules S ++ map (reroot R) (sort_rules Tr)).
+
+Definition obs_vresult (v : vresult) : pyval :=
+  VTuple [VBool (v_valid v); VInt (Z.of_nat (v_num_failures v)); VInt (Z.of_nat (v_num_tested v));
+          VList (map obs_rtest (v_tests v)); v_cast_data v].
+
+(* S.add_schema(T, R) for each (T, R) in order; then S.validate(doc) *)
+Definition run_add_validate (S : list ruleterm) (adds : list (list ruleterm * pathterm pyval)) (doc : pyval) : res pyval :=
+  let* s0 := mk_rules T S in
+  let* s :=
+    (fix go (adds : list (list ruleterm * pathterm pyval)) (acc : list rule) : res (list rule) :=
+       match adds with
+       | [] => Ok acc
+       | (tr, rt) :: rest =>
+           let* t := mk_rules T tr in
+           let* r := mk_path T idlit rt in
+           go rest (add_schema acc t r)
+       end) adds (sort_rules s0) in
+  let* v := validate T s doc in Ok (obs_vresult v).
